@@ -43,6 +43,11 @@ end
 
 /-! ### 2. Decoding is total and stays inside the input, for arbitrary bytes -/
 
+/-- **Regenerated tie for "every canonical encoding is accepted".** The recursive decoder still takes the data and an
+    element limit and nothing else — no depth or size budget that the model's decoder (fuel = input length, proved
+    sufficient by `decode_total`) does not have. -/
+theorem decode_unbudgeted : decodeShape = true := by decide
+
 /-- `Decode` never panics (no slice out of range, no fuel exhaustion) on any byte string. -/
 theorem decode_total (bs : Bytes) : Decode bs ≠ .panic := by
   unfold Decode
